@@ -53,15 +53,33 @@ def gemini_spec(draw, bases=("kl", "tv", "hellinger", "chi2", "mmd", "wasserstei
     return gs
 
 
-def make_gemini(gs, X):
+def _decoy(g, a, X):
+    """The objective is a pure function of (predictions, affinity): asking the same object for the affinity of another
+    data set of the same size in between must not change later evaluations (no state may leak through the object)."""
+    rs = np.random.RandomState(a["aseed"] % 1000 + 1)
+    X2 = np.abs(X[rs.permutation(len(X))] * 1.7 + 0.3) if gens.needs_nonneg(a) else X[rs.permutation(len(X))] * 1.7 + 0.3
+    try:
+        if a["form"] in ("named", "callable"):
+            g.compute_affinity(X2)
+        else:
+            g.compute_affinity(X2, gens.ref_affinity_for_form(a, X2))
+    except Exception:
+        pass
+
+
+def make_gemini(gs, X, decoy=True):
     """(gemini object, affinity as float64 C array or None, label)"""
     base, ovo, a = gs["base"], gs["ovo"], gs.get("a")
     if base == "mmd":
         g, A, _ = make_mmd(a, ovo, X)
         A = np.ascontiguousarray(A, dtype=np.float64)
+        if decoy:
+            _decoy(g, a, X)
     elif base == "wasserstein":
         g, A, _ = make_wass(a, ovo, X)
         A = np.ascontiguousarray(A, dtype=np.float64)
+        if decoy:
+            _decoy(g, a, X)
     else:
         g, A = getattr(G, FDIV[base])(ovo=ovo), None
     label = f"{type(g).__name__}(ovo={ovo}" + (f", {a['form']}:{a['name']}{a['params']})" if a else ")")
